@@ -134,7 +134,13 @@ func cmdList() int {
 
 func cmdFunc(name, prop string, dump, keep bool) int {
 	p := mustLoad()
-	if _, ok := p.fns[name]; !ok {
+	isLemma := false
+	for _, lm := range p.specs.Lemmas {
+		if lm.Name == name {
+			isLemma = true
+		}
+	}
+	if _, ok := p.fns[name]; !ok && !isLemma {
 		fmt.Println("no such function; candidates:")
 		for n := range p.fns {
 			if strings.Contains(n, name) {
